@@ -193,6 +193,9 @@ class err_handler(object):
         """
         #pdb.set_trace()
         if not self.seg_node_added:
+            if self.cur_st_node is None:
+                # Segment outside of any transaction set: nowhere to attach it
+                return
             self.cur_st_node.children.append(self.cur_seg_node)
             self.seg_node_added = True
 
@@ -225,6 +228,9 @@ class err_handler(object):
         @param err_str: Description of the error
         @type err_str: string
         """
+        if self.cur_isa_node is None:
+            logger.error('ISA:%s - %s (no current ISA loop)' % (err_cde, err_str))
+            return
         sout = ''
         sout += 'Line:%i ' % (self.cur_isa_node.get_cur_line())
         sout += 'ISA:%s - %s' % (err_cde, err_str)
@@ -238,6 +244,10 @@ class err_handler(object):
         @param err_str: Description of the error
         @type err_str: string
         """
+        if self.cur_gs_node is None:
+            # No enclosing functional group: report on the interchange
+            self.isa_error('024', 'GS:%s - %s' % (err_cde, err_str))
+            return
         sout = ''
         sout += 'Line:%i ' % (self.cur_gs_node.get_cur_line())
         sout += 'GS:%s - %s' % (err_cde, err_str)
@@ -251,6 +261,10 @@ class err_handler(object):
         @param err_str: Description of the error
         @type err_str: string
         """
+        if self.cur_st_node is None:
+            # No enclosing transaction set: report on the functional group
+            self.gs_error('1', 'ST:%s - %s' % (err_cde, err_str))
+            return
         sout = ''
         sout += 'Line:%i ' % (self.cur_st_node.get_cur_line())
         sout += 'ST:%s - %s' % (err_cde, err_str)
